@@ -577,6 +577,33 @@ pub fn sites(tier: Tier) -> Vec<Site> {
         ));
     }
 
+    // 3e. IS_MSO, the one packet whose parser relates two of its fields (TextStart and the message): every
+    // message of length 4 and 8 over {a ^ E J 0xEC 0x83 0x9F NUL} x every TextStart 0..=length+1
+    {
+        const A: [u8; 8] = [b'a', b'^', b'E', b'J', 0xec, 0x83, 0x9f, 0];
+        let thorough = tier == Tier::Thorough;
+        let n4: u64 = 8u64.pow(4) * 6;
+        let n8: u64 = if thorough { 8u64.pow(8) * 10 } else { 8u64.pow(6) * 10 };
+        sites.push(Site::new("mso-marker-corpus", (n4 + n8) * 2,
+            "IS_MSO frames with every message of length 4 (and 8; quick: last two bytes 'a' NUL) over {a ^ E J 0xEC 0x83 0x9F NUL} x every TextStart 0..=length+1 x mode, followed by a sentinel TINY",
+            move |i, acc| {
+                let compressed = i % 2 == 0;
+                let j = i / 2;
+                let (len, mut k, ts) = if j < n4 { (4usize, j / 6, (j % 6) as usize) } else { let q = j - n4; (8usize, q / 10, (q % 10) as usize) };
+                let free = if len == 4 { 4 } else if thorough { 8 } else { 6 };
+                let mut msg = vec![];
+                for _ in 0..free { msg.push(A[(k % 8) as usize]); k /= 8; }
+                while msg.len() < len { msg.push(if msg.len() == len - 1 { 0 } else { b'a' }); }
+                let total = 8 + len;
+                let mut buf = vec![if compressed { (total / 4) as u8 } else { total as u8 }, 11, 0, 0, 1, 2, 1, ts as u8];
+                buf.extend_from_slice(&msg);
+                buf.extend_from_slice(if compressed { &SENTINEL_C } else { &SENTINEL_U });
+                let replay = || json!({"site": "mso-marker-corpus", "index": i, "input": hex(&buf)});
+                judge_lazy(compressed, &buf, i, &replay, acc, true);
+            },
+        ));
+    }
+
     // 4. all short buffers over a 16-symbol alphabet
     let maxlen = if tier == Tier::Thorough { 6 } else { 5 };
     let mut count = 0u64;
